@@ -781,7 +781,7 @@ def check(run: core.Run) -> int:
     run.build_and_prove(PROP_FILES)
     mods = load_mods()
     thorough = run.tier == "thorough"
-    n = 8000 if thorough else 500
+    n = 6000 if thorough else 500
     fixed_box = detect_fixed_box(mods)
     fixed_len = detect_fixed_len(mods)
     fixed_box_pipe = detect_fixed_box_pipe(mods)
